@@ -8,7 +8,7 @@ from .. import adapters, core, family, prog
 from ..draw import composite, RDraw
 
 RULE = ("sequences over the file classes {clean, notice-only, erroneous, fatally unparsable}: ALL sequences of length 0..k with repetition "
-        "(k=3 quick, 4 thorough) + Hypothesis-sampled longer ones, each run as explicit path arguments in that order (a repeated class = the "
+        "(k=3 quick, 4 thorough) + Hypothesis-sampled longer ones + bulk runs of 255 / 256 / 257 (thorough: up to 1024) erroneous files in one directory, each run as explicit path arguments in that order (a repeated class = the "
         "same path mentioned again) and as one directory argument holding distinct copies; class representatives are generated per shard, and the way a class is reached rotates (notice: global-variable notice / unknown escape in a string or character constant / empty \\x / both; error: rule-level / tokenizer-level / rule-level plus tokenizer notice; fatal: garbage statement / #if without argument / garbage tail), the class being decided from the diagnostic levels of an independent in-process run; "
         "oracle (model): one verdict line per mention, OK! iff the file has no Error-level diagnostic (from an independent in-process run), "
         "exit status 0 iff every file is OK; a fatal file is named in an Error! block, exit != 0, files before it keep their verdict lines and "
@@ -39,8 +39,10 @@ def classify(text, name="x.c"):
 
 def _before_last_brace(text, line):
     lines = text.split("\n")
-    k = max(i for i, l in enumerate(lines) if l == "}")
-    lines.insert(k, line)
+    ks = [i for i, l in enumerate(lines) if l == "}"]
+    if not ks:
+        return text       # (a variant without a closing brace on its own line: the caller's classification decides whether it is usable)
+    lines.insert(ks[-1], line)
     return "\n".join(lines)
 
 
@@ -228,6 +230,32 @@ def shard_sampled(seed, n, variant=0):
     return camp
 
 
+def shard_bulk(seed, counts, variant=0):
+    """large runs: N files with an Error verdict in one directory (exit statuses are 8 bits wide: a count must not leak into them)"""
+    camp = core.Campaign()
+    reps, kinds = representatives(seed, variant)
+    for n in counts:
+        files = {"d/e%04d.c" % k: reps["error"] for k in range(n)}
+        files["d/ok.c"] = reps["clean"]
+        with adapters.scratch() as dname:
+            adapters.write_tree(dname, files)
+            res = adapters.forked_cli(["d", "--no-colors"], dname, timeout=600)
+        camp.case("bulk|%d" % n, True)
+        camp.count("bulk-runs")
+        case = {"bulk": n, "reps": {"error": reps["error"], "clean": reps["clean"]}}
+        if res.traceback:
+            camp.fail("C04|traceback|bulk", "traceback: %s" % res.err.strip().split("\n")[-1][:120], case)
+            continue
+        parsed, _ = adapters.parse_humanized(res.out)
+        nerr = sum(1 for f in parsed if f["verdict"] == "Error")
+        nok = sum(1 for f in parsed if f["verdict"] == "OK")
+        if (nerr, nok) != (n, 1):
+            camp.fail("C04|verdict-lines|bulk", "%d erroneous files + 1 clean file in a directory: %d Error! and %d OK! lines" % (n, nerr, nok), case)
+        if res.code == 0:
+            camp.fail("C04|exit-status|bulk", "%d files with an Error! verdict in one run: exit status 0" % n, case)
+    return camp
+
+
 def cross_check(camp, seed, n):
     """the forked adapter must agree with the real CLI (harness self-validation)"""
     reps, _ = representatives(seed, 1)
@@ -244,6 +272,15 @@ def cross_check(camp, seed, n):
 
 def replay(pid, case):
     camp = core.Campaign()
+    if "bulk" in case:
+        global representatives
+        keep = representatives
+        representatives = lambda seed, variant=0: (dict(case["reps"], notice=case["reps"]["clean"], fatal=case["reps"]["clean"]), ("replay",) * 3)
+        try:
+            camp = shard_bulk(0, [case["bulk"]])
+        finally:
+            representatives = keep
+        return [(k, b["what"]) for k, b in camp.buckets.items()]
     reps = dict(case["reps"])
     run_sequence(camp, reps, tuple(case["seq"]), case["mode"], case["fmt"], adapters.forked_cli)
     return [(k, b["what"]) for k, b in camp.buckets.items()]
@@ -261,6 +298,8 @@ def run(pid, tier, seed):
     nsh = 16
     jobs = [dict(fn=shard_exhaustive, kw=dict(seed=core.seed_of(seed, s % 8, 4), seqs=seqs[s::nsh], fmts=fmts, variant=s)) for s in range(nsh)]
     jobs += [dict(fn=shard_sampled, kw=dict(seed=core.seed_of(seed, 50 + s, 4), n=nsamp, variant=s + 3)) for s in range(8)]
+    bulk = [255, 256, 257] if tier == "quick" else [255, 256, 257, 511, 512, 768, 1024]
+    jobs += [dict(fn=shard_bulk, kw=dict(seed=core.seed_of(seed, 70 + j, 4), counts=[n], variant=j)) for j, n in enumerate(bulk)]
     camp.merge(core.run_shards(_dispatch, jobs))
     camp.extra["exhaustive_sequences_up_to_length"] = k
     camp.extra["exhaustive_sequence_count"] = len(seqs)
